@@ -37,14 +37,6 @@ def showDigests (o : Option (List Bytes)) : String :=
   | some [] => "-"
   | some ds => ",".intercalate (ds.map Hex.encode)
 
-def fam256 (A : Impl.Sha2.Alg256) : Family Impl.Sha2.Ctx256 :=
-  ⟨Impl.Sha2.Ctx256.new A, Impl.Sha2.Ctx256.update, Impl.Sha2.Ctx256.update_mut, Impl.Sha2.Ctx256.reset A,
-   Impl.Sha2.Ctx256.finalize_reset A, Impl.Sha2.Ctx256.finalize A⟩
-
-def fam512 (A : Impl.Sha2.Alg512) : Family Impl.Sha2.Ctx512 :=
-  ⟨Impl.Sha2.Ctx512.new A, Impl.Sha2.Ctx512.update, Impl.Sha2.Ctx512.update_mut, Impl.Sha2.Ctx512.reset A,
-   Impl.Sha2.Ctx512.finalize_reset A, Impl.Sha2.Ctx512.finalize A⟩
-
 def hctx {γ : Type} (F : Family γ) : Handler :=
   h1 fun p => (parseProg p).map fun ops => showDigests (runProg F ops F.new [] [])
 
